@@ -280,13 +280,122 @@ fn bundle_case(code: &str) -> Option<Violation> {
     None
 }
 
+const MODULE_ENDINGS: &[&str] = &[
+    "return a",
+    "return a\n",
+    "return a\n\n",
+    "return a\n\n\n",
+    "return a -- c",
+    "return a -- c\n",
+    "return a\n-- c",
+    "return a\n-- c\n",
+    "return a --[[ c\n c ]]",
+    "return a --[[ c\n c ]]\n",
+    "return a;",
+    "return a;\n",
+    "return a :: any",
+    "return a :: any\n",
+    "return a :: {\n    x: number }",
+    "return (a)",
+    "return { a,\n    b }",
+    "return {\n    a }\n",
+    "return function()\n    return a\nend",
+    "return function()\n    return a\nend\n",
+    "return [[x\ny]]",
+    "return [[x\ny]]\n",
+    "return a .. [[\n]]",
+    "return `x{a}`",
+    "return `x{\na}`\n",
+    "return f(a,\n    b)",
+    "return f\n{ a }",
+    "return a.b\n    .c",
+    "return -\n    a",
+    "return if a then b else\n    c",
+    "return nil",
+    "return ...",
+    "return \"s\"",
+    "return 'multi\\\nline'",
+    "return 1",
+    "return a == b",
+    "return not\n    a\n",
+];
+
+/// darklua's convention: a file occupies one line more than it has line breaks (a final line break opens a last, empty line)
+fn source_lines(text: &str) -> i64 {
+    text.matches('\n').count() as i64 + 1
+}
+
+/// bundling with modules that end in every kind of expression / trivia: each file keeps its lines relative to its
+/// first line, and each file starts exactly after the lines of the previous one
+fn bundle_ending_cases() -> (u64, Vec<Violation>) {
+    let mut out = Vec::new();
+    let mut n = 0;
+    for e1 in MODULE_ENDINGS {
+        for e2 in [MODULE_ENDINGS[0], MODULE_ENDINGS[1], e1] {
+            for rules in ["[]", "['remove_spaces']", "['remove_spaces','remove_comments']"] {
+                n += 1;
+                let m1 = format!("local a = \"@1001@\"\nlocal b = \"@1002@\"\n{}", e1);
+                let m2 = format!("local a, b = \"@2001@\",\n    \"@2002@\"\n\n{}", e2);
+                let entry = "local e1 = \"@1@\" local m1 = require(\"./m1\")\nlocal m2 = require(\"./m2\")\n\nlocal e4 = \"@4@\"\nreturn \"@5@\"\n";
+                let cfg = format!("{{rules:{},bundle:{{require_mode:'path'}}}}", rules);
+                let files = [("src/main.lua", entry), ("src/m1.lua", m1.as_str()), ("src/m2.lua", m2.as_str())];
+                let (resources, errors) = match dl::process_memory(&files, &cfg, "src/main.lua", Some("out/main.lua")) {
+                    Ok(r) => r,
+                    Err(_) => continue,
+                };
+                if !errors.is_empty() {
+                    continue;
+                }
+                let text = match resources.get("out/main.lua") {
+                    Ok(t) => t,
+                    Err(_) => continue,
+                };
+                let ms = match markers(&text) {
+                    Ok(m) => m,
+                    Err(_) => continue,
+                };
+                let mut problems = Vec::new();
+                let mut offsets: [Option<i64>; 3] = [None, None, None];
+                for (claimed, actual) in &ms {
+                    let (file, line) = ((claimed / 1000) as usize, (claimed % 1000) as i64);
+                    // file 1, 2 = modules, 0 = entry
+                    let off = *actual as i64 - line;
+                    match offsets[file] {
+                        None => offsets[file] = Some(off),
+                        Some(o) if o != off => problems.push(format!("marker {} of {} is on line {}: the file's lines moved by different amounts ({} and {})", claimed, ["the entry", "m1", "m2"][file], actual, o, off)),
+                        _ => {}
+                    }
+                }
+                if let (Some(o1), Some(o2), Some(oe)) = (offsets[1], offsets[2], offsets[0]) {
+                    if o2 - o1 != source_lines(&m1) {
+                        problems.push(format!("m2 starts {} lines after m1, which has {} lines", o2 - o1, source_lines(&m1)));
+                    }
+                    if oe - o2 != source_lines(&m2) {
+                        problems.push(format!("the entry starts {} lines after m2, which has {} lines", oe - o2, source_lines(&m2)));
+                    }
+                } else {
+                    problems.push(format!("markers are missing from the bundle: {:?}", ms));
+                }
+                if !problems.is_empty() {
+                    out.push(Violation {
+                        finding: None,
+                        summary: format!("{}\n--- rules {} m1 = {:?} m2 = {:?}\n--- output\n{}", problems.join("\n"), rules, m1, m2, text),
+                        replay: json!({"kind": "bundle endings", "m1": m1, "m2": m2, "rules": rules}),
+                    });
+                }
+            }
+        }
+    }
+    (n, out)
+}
+
 pub fn run(tier: Tier) -> Report {
     let mut report = Report::new("C04", "model_checking", tier);
     report.rule = "41 multi-line layouts (calls, tables, function definitions, if-chains with constant and dynamic conditions, loops, declarations spread \
         over 2-4 lines, comments and blank lines between and inside, long strings, Luau constructs for every lowering rule, assert/profiling/injected \
         global/method call/sqrt/attribute forms) in which every line n carries the string literal \"@n@\" in code position; (a) BFS over the 13 default rules \
         to closure from parse(seed); (b) from the state after remove_spaces, BFS over 17 line-neutral rules to the depth bound; append_text_comment \
-        (1-, 3- and trailing-newline texts; start: uniform known shift, end: no shift) alone and after remove_spaces; a bundling case with uniform shift. \
+        (1-, 3- and trailing-newline texts; start: uniform known shift, end: no shift) alone and after remove_spaces; a bundling case with uniform shift; one long comment of level 0-3 directly before or after every marker; two bundled modules ending in each of 37 expression / trivia shapes (every file keeps its lines and starts exactly after the previous one). \
         In every reachable state the retain_lines output is re-lexed by luaref and every whole-token marker @n@ must sit on line n + shift"
         .to_owned();
     report.assumptions = vec![
@@ -321,6 +430,16 @@ pub fn run(tier: Tier) -> Report {
             }
         }
     }
+    // one deviation inside a line: a long comment of level 0, 1, 2 (one line or two) directly before or after every marker
+    for a in LAYOUTS.iter() {
+        let positions: Vec<usize> = a.match_indices("@L@").map(|(i, _)| i).collect();
+        for p in positions {
+            for c in ["--[[ c ]]", "--[=[ c ]=]", "--[==[ c ]==]", "--[===[ ]] ]===]", "--[==[ c\nd ]==]"] {
+                raw.push(format!("{}{} {}", &a[..p], c, &a[p..]));
+                raw.push(format!("{} {}{}", &a[..p + 3], c, &a[p + 3..]));
+            }
+        }
+    }
     let seeds: Vec<String> = raw.iter().map(|l| instantiate(l)).collect();
     let results: Vec<Out> = seeds.par_iter().map(|s| run_seed(s, tier)).collect();
     let mut closed = true;
@@ -338,6 +457,10 @@ pub fn run(tier: Tier) -> Report {
             report.violations.push(v);
         }
     }
+    let (n, v) = bundle_ending_cases();
+    report.evaluations += n;
+    report.violations.extend(v);
+    report.set("bundle_ending_cases", n);
     report.traces_validated = report.evaluations;
     report.exhaustive = closed;
     report.set("layouts", seeds.len() as u64);
